@@ -288,3 +288,177 @@ Theorem noinv_refuted_overtime :
          Codec2.run_many cf s ds = State2.Ok s' /\ Inversion2.Inversion s'.
 Proof. exact Inversion2.noinv_refuted_overtime. Qed.
 Print Assumptions noinv_refuted_overtime.
+
+(* ---- Preempt2r ---- *)
+From CiwV.Inv Require Preempt2r.
+
+(* the printed form of this statement does not re-parse (nat / Z scopes): it is the statement of Preempt2r.preempt_reroute_spec, verbatim in coq/Inv/Preempt2r.v *)
+Theorem preempt_reroute_spec : ltac:(let t := type of Preempt2r.preempt_reroute_spec in exact t).
+Proof. exact Preempt2r.preempt_reroute_spec. Qed.
+Print Assumptions preempt_reroute_spec.
+
+Theorem preempt_reroute_record :
+  forall (cf : State2.config) (fu : nat) (j v i : BinNums.Z)
+         (s s' : State2.sim) (nc : State2.ncfg) (vx : State2.ind)
+         (nd : State2.node) (sid : BinNums.Z) (sv : State2.server),
+       Engine2.preempt cf (S (S fu)) j v i s = State2.Ok (tt, s') ->
+       Preempt2.Idx s ->
+       Preempt2.cfg_at cf j = Some nc ->
+       State2.nc_preempt nc =
+       BinNums.Zpos (BinNums.xO (BinNums.xO BinNums.xH)) ->
+       Engine2.nc_slotted nc = false ->
+       Engine2.find_ind v (State2.inds s) = Some vx ->
+       Preempt2.node_at s j = Some nd ->
+       Engine2.nd_inf nd = false ->
+       State2.i_server vx = Some sid ->
+       Engine2.find_server sid (State2.n_servers nd) = Some sv ->
+       State2.sv_offduty sv = false ->
+       exists
+         (d : BinNums.Z) (sr : State2.sim) (R : State2.rec) 
+       (rest : list State2.rec),
+         Engine2.next_node_for cf (BinNums.Zpos BinNums.xH) j v
+           (Preempt2.set_ind
+              (RecordSet.set State2.i_ost
+                 (fun _ : option BinNums.Z => State2.i_stime vx) vx) s) =
+         State2.Ok (d, sr) /\
+         State2.log s' = (State2.log s ++ R :: rest)%list /\
+         State2.r_type R = BinNums.Zpos BinNums.xH /\
+         State2.r_id R = v /\
+         State2.r_node R = j /\
+         State2.r_dest R = Some d /\
+         State2.r_exit R = Some (State2.now s) /\
+         State2.r_arr R = State2.i_arr vx /\
+         State2.r_sst R = State2.i_sst vx /\
+         State2.r_stime R = State2.i_stime vx /\
+         State2.r_send R = None /\
+         State2.r_server R = Some sid /\
+         State2.r_cls R = State2.i_pcls vx /\
+         State2.r_ocls R = State2.i_ocls vx.
+Proof. exact Preempt2r.preempt_reroute_record. Qed.
+Print Assumptions preempt_reroute_record.
+
+Theorem preempt_reroute_dest :
+  forall (cf : State2.config) (fu : nat) (j v i : BinNums.Z)
+         (s s' : State2.sim) (nc : State2.ncfg) (vx : State2.ind)
+         (nd : State2.node) (sid : BinNums.Z) (sv : State2.server),
+       Route2.routing_ok cf ->
+       Route2.upos s ->
+       Engine2.preempt cf (S (S fu)) j v i s = State2.Ok (tt, s') ->
+       Preempt2.Idx s ->
+       Preempt2.cfg_at cf j = Some nc ->
+       State2.nc_preempt nc =
+       BinNums.Zpos (BinNums.xO (BinNums.xO BinNums.xH)) ->
+       Engine2.nc_slotted nc = false ->
+       Engine2.find_ind v (State2.inds s) = Some vx ->
+       Preempt2.node_at s j = Some nd ->
+       Engine2.nd_inf nd = false ->
+       State2.i_server vx = Some sid ->
+       Engine2.find_server sid (State2.n_servers nd) = Some sv ->
+       State2.sv_offduty sv = false ->
+       exists
+         (d : BinNums.Z) (sr : State2.sim) (rt : State2.routing) 
+       (raw : BinNums.Z),
+         Engine2.next_node_for cf (BinNums.Zpos BinNums.xH) j v
+           (Preempt2.set_ind
+              (RecordSet.set State2.i_ost
+                 (fun _ : option BinNums.Z => State2.i_stime vx) vx) s) =
+         State2.Ok (d, sr) /\
+         Engine2.nthZ (State2.cf_routing cf) (State2.i_cls vx) = Some rt /\
+         Route2.allowed (BinNums.Zpos BinNums.xH) j
+           (RecordSet.set State2.i_ost
+              (fun _ : option BinNums.Z => State2.i_stime vx) vx) rt
+           (State2.nodes s) (State2.cyc s) raw /\
+         Route2.vdest (Prelude.zlen (State2.nodes s)) raw = Some d /\
+         (d = BinNums.Zneg BinNums.xH \/
+          BinInt.Z.le (BinNums.Zpos BinNums.xH) d /\
+          BinInt.Z.le d (Prelude.zlen (State2.nodes s))).
+Proof. exact Preempt2r.preempt_reroute_dest. Qed.
+Print Assumptions preempt_reroute_dest.
+
+Theorem preempt_reroute_preemptor_after :
+  forall (cf : State2.config) (fu : nat) (j v i : BinNums.Z)
+         (s s' : State2.sim) (nc : State2.ncfg) (vx : State2.ind)
+         (nd : State2.node) (sid : BinNums.Z) (sv : State2.server),
+       Engine2.preempt cf (S (S fu)) j v i s = State2.Ok (tt, s') ->
+       Preempt2.Idx s ->
+       Preempt2.cfg_at cf j = Some nc ->
+       State2.nc_preempt nc =
+       BinNums.Zpos (BinNums.xO (BinNums.xO BinNums.xH)) ->
+       Engine2.nc_slotted nc = false ->
+       Engine2.find_ind v (State2.inds s) = Some vx ->
+       Preempt2.node_at s j = Some nd ->
+       Engine2.nd_inf nd = false ->
+       State2.i_server vx = Some sid ->
+       Engine2.find_server sid (State2.n_servers nd) = Some sv ->
+       State2.sv_offduty sv = false ->
+       exists (st : BinNums.Z) (xi' : State2.ind),
+         Engine2.find_ind i (State2.inds s') = Some xi' /\
+         State2.i_server xi' = Some sid /\
+         State2.i_sst xi' = Some (State2.now s) /\
+         State2.i_stime xi' = Some st /\
+         State2.i_smark xi' = BinNums.Z0 /\
+         State2.i_send xi' = Some (BinInt.Z.add (State2.now s) st) /\
+         State2.now s' = State2.now s.
+Proof. exact Preempt2r.preempt_reroute_preemptor_after. Qed.
+Print Assumptions preempt_reroute_preemptor_after.
+
+(* the printed form of this statement does not re-parse (nat / Z scopes): it is the statement of Preempt2r.preempt_reroute_to_other_node, verbatim in coq/Inv/Preempt2r.v *)
+Theorem preempt_reroute_to_other_node : ltac:(let t := type of Preempt2r.preempt_reroute_to_other_node in exact t).
+Proof. exact Preempt2r.preempt_reroute_to_other_node. Qed.
+Print Assumptions preempt_reroute_to_other_node.
+
+Theorem reroute_same_node_refuted :
+  exists
+         (cf : State2.config) (fu : nat) (j v i : BinNums.Z) 
+       (s s' : State2.sim) (nc : State2.ncfg) (vx x : State2.ind) 
+       (nd : State2.node) (sid : BinNums.Z) (sv : State2.server) 
+       (sr s1 s2 : State2.sim) (xi : State2.ind) (nd2 : State2.node) 
+       (sv2 : State2.server),
+         Engine2.preempt cf (S (S fu)) j v i s = State2.Ok (tt, s') /\
+         Preempt2.Idx_b s = true /\
+         v <> i /\
+         Preempt2.cfg_at cf j = Some nc /\
+         State2.nc_preempt nc =
+         BinNums.Zpos (BinNums.xO (BinNums.xO BinNums.xH)) /\
+         Engine2.nc_slotted nc = false /\
+         Engine2.find_ind v (State2.inds s) = Some vx /\
+         Engine2.find_ind i (State2.inds s) = Some x /\
+         Preempt2.node_at s j = Some nd /\
+         Engine2.nd_inf nd = false /\
+         State2.i_server vx = Some sid /\
+         Engine2.find_server sid (State2.n_servers nd) = Some sv /\
+         State2.sv_offduty sv = false /\
+         Engine2.next_node_for cf (BinNums.Zpos BinNums.xH) j v
+           (Preempt2.set_ind
+              (RecordSet.set State2.i_ost
+                 (fun _ : option BinNums.Z => State2.i_stime vx) vx) s) =
+         State2.Ok (j, sr) /\
+         (let vr :=
+            RecordSet.set State2.i_route
+              (fun _ : option (list (list BinNums.Z)) => None)
+              (RecordSet.set State2.i_ost
+                 (fun _ : option BinNums.Z => State2.i_stime vx) vx) in
+          s1 =
+          Preempt2r.handed_state sr (State2.log s)
+            (Preempt2.int_rec j (State2.now s) vr (Some j) (Some sid)) vr
+            (Preempt2r.departed nd (State2.i_pprio vx) nil
+               (Preempt2.detached (State2.now s)
+                  (RecordSet.set State2.i_exit
+                     (fun _ : option BinNums.Z => Some (State2.now s)) vr) sv))) /\
+         Engine2.accept cf fu j v s1 = State2.Ok (tt, s2) /\
+         Engine2.start_preemptor cf j i sid s2 = State2.Ok (tt, s') /\
+         State2.i_server x = None /\
+         State2.i_sst x = None /\
+         Engine2.find_ind i (State2.inds s2) = Some xi /\
+         State2.i_server xi = Some sid /\
+         State2.i_sst xi = Some (State2.now s) /\
+         xi <> x /\
+         Preempt2.node_at s2 j = Some nd2 /\
+         Engine2.find_server sid (State2.n_servers nd2) = Some sv2 /\
+         State2.sv_cust sv2 = Some i /\
+         State2.sv_busy sv2 = true /\
+         List.In v (Engine2.all_individuals nd2) /\
+         (forall (q' : list BinNums.Z) (D : State2.server),
+          nd2 <> Preempt2r.departed nd (State2.i_pprio vx) q' D).
+Proof. exact Preempt2r.reroute_same_node_refuted. Qed.
+Print Assumptions reroute_same_node_refuted.
